@@ -167,7 +167,25 @@ func main() {
 		e := sym.NewEngine(prog, c)
 		e.HarnessModels = hmodels
 		ht0 := time.Now()
-		if err := e.Run(h.fn); err != nil {
+		// watchdog: a harness that neither finishes nor reaches its own deadline checks (an
+		// interpreter-level stall) must not hang the check: give up on the whole run, keeping
+		// what has been decided so far, and say so
+		stuck := make(chan struct{})
+		if *budgetS > 0 {
+			go func(name, pkg string) {
+				select {
+				case <-stuck:
+				case <-time.After(time.Duration(2*(*budgetS)+120) * time.Second):
+					fmt.Printf("INCONCLUSIVE harness=%s reason=engine-stuck (no progress %ds after its budget)\n", name, *budgetS+120)
+					res.Harnesses = append(res.Harnesses, HarnessResult{Name: name, Pkg: pkg, Paths: 0, Inconclusive: []string{"engine-stuck: the interpreter stalled on this harness; nothing is claimed for it"}})
+					writeOut(res)
+					os.Exit(0)
+				}
+			}(h.fn.Name(), h.pkg)
+		}
+		err := e.Run(h.fn)
+		close(stuck)
+		if err != nil {
 			fmt.Printf("INCONCLUSIVE harness=%s reason=engine %v\n", h.fn.Name(), err)
 			continue
 		}
